@@ -42,11 +42,28 @@ class CFG:
         self._dom_cache = {}
         self._compute_pdom()
         self._loops()
+        # second pass: an order in which everything inside a loop precedes what follows the loop (a DFS that takes the exit edges of
+        # a loop first finishes the exits first, so they come later in reverse post-order) -- whichever way the exit test is written
+        # (`while c {..}` or `loop { if !c { break } .. }`)
+        if self.loops:
+            first = list(self.rpo)
+            self.rpo = self._rpo(prefer_exits=True)
+            if set(self.rpo) != set(first):
+                self.rpo = first
 
     # ---- orderings -------------------------------------------------------------------------
-    def _rpo(self):
+    def _rpo(self, prefer_exits=False):
+        def succs(n):
+            ss = list(self.succ.get(n, []))
+            if prefer_exits:
+                hs = self.loop_of.get(n, [])
+                if hs:
+                    inner = self.loops[hs[-1]]
+                    # edges leaving the innermost loop of n first (stable otherwise)
+                    ss = [x for x in ss if x not in inner] + [x for x in ss if x in inner]
+            return ss
         seen, order = set(), []
-        stack = [(self.entry, iter(self.succ.get(self.entry, [])))]
+        stack = [(self.entry, iter(succs(self.entry)))]
         seen.add(self.entry)
         while stack:
             n, it = stack[-1]
@@ -54,7 +71,7 @@ class CFG:
             for s in it:
                 if s not in seen and s in self.succ:
                     seen.add(s)
-                    stack.append((s, iter(self.succ.get(s, []))))
+                    stack.append((s, iter(succs(s))))
                     adv = True
                     break
             if not adv:
